@@ -22,9 +22,25 @@ CLAIMS = {
          "graph, pair counts) for the model of get_graph / collection graph queries; correspondence on random collections n<=6 and 4^n-vertex "
          "commutator graphs n<=3 (thorough 5).",
          "Lean characterisation proofs + differential correspondence against double-loop oracle"),
+ "C01": ("other", "6.C01", "Partial proof + verified per-input decision. Proved in Lean for ALL n: the executable closure checker closureList enumerates exactly the "
+         "inductively defined commutator closure (sound, complete, duplicate-free, never out of fuel), Clo = right-nested closure. The hand model of the whole "
+         "classifier (get_subgraphs, queue, pipeline steps I-VII, Morph.counts, name table) is tied to the code by exact comparison of legs/dependents/algebra. "
+         "Per input (n<=5 quick, n<=6 thorough; every collection of <=3 strings on 2 qubits): invariants of the verified closure (size, centre, per block "
+         "simple dimension / centraliser / copies) must equal those of the reported name. That the reduction is correct for all inputs is the classification "
+         "theorem of arXiv:2408.00081 and is NOT proved.",
+         "Lean-verified closure checker evaluated per input + exact differential correspondence of the classifier model"),
+ "C02": ("other", "6.C02", "Partial: closure of canonical vertices == closure of generators and dependents inside it, decided per input with the Lean-verified closureList "
+         "(n<=6); star-of-paths shape (Lean checker on the legs' anticommutation graph), accounting (vertices + dependents == distinct inputs) and one graph per "
+         "component at any n (to 16/24 qubits). Closure preservation of the reduction for all inputs is not proved.",
+         "Lean-verified closure/shape checkers per input + differential correspondence of the reduction model"),
+ "C08": ("other", "6.C08", "Partial: get_space / select_dependents / is_in / is_eq compared per input with the Lean-verified commutator closure (all 4^n single queries for "
+         "n<=3, sampled query sets to n=5/6); model of the membership pipeline tied by correspondence. Membership correctness for all inputs is not proved.",
+         "Lean-verified closure checker per query + differential correspondence"),
+ "C09": ("other", "6.C09", "Partial: get_dla_dim == size of the Lean-verified closure (n<=6) and == dimension of the reported name (Lean dimension function, any n to 10/14 qubits).",
+         "Lean-verified closure size + name-dimension arithmetic per input + differential correspondence"),
 }
 PENDING = {}
-ACTIVE = ["C04", "C18", "C17", "C14"]   # claimed now; the rest of CLAIMS is switched on when its theorems are in the build
+ACTIVE = ["C04", "C18", "C17", "C14", "C01", "C02", "C08", "C09"]
 def main():
     props = [json.loads(l) for l in open(os.path.join(V, "properties.jsonl"))]
     checks, na = [], []
